@@ -99,7 +99,9 @@ def check(ctx):
     ctx.rule('ESC-MAKE', 'Syntax.target / Syntax.dependency / Syntax.clean '
              'escape every GNU Make metacharacter of the path positions they '
              'are designed for (targets and include operands; '
-             'prerequisites; path variables); keys are '
+             'prerequisites; path variables) and escape nothing the reader '
+             'leaves alone; every producer of run-time data for a Make '
+             'variable value is an instance of the unescaped `#`; keys are '
              'context|member|character')
     ctx.rule('ESC-NINJA', 'Syntax.output / Syntax.input escape $, space and '
              'colon (Ninja build-line paths)')
